@@ -567,6 +567,13 @@ func runAndX() {
 		if a.GetOffset() != uint16(v[2]) || a.GetCommandCode() != codes.CommandCode(v[0]) {
 			r.Violation("AndX:accessors", "GetOffset/GetCommandCode disagree with the fields", map[string]any{"value": desc})
 		}
+		// the block has two encodings inside the library: its own four bytes (Marshal) and the two
+		// parameter words every AndX command starts with (GetParameters, written high byte
+		// first by Parameters): both must be the same four bytes
+		if ws := a.GetParameters(); len(ws) != 2 || len(enc) != 4 || byte(ws[0]>>8) != enc[0] || byte(ws[0]) != enc[1] || byte(ws[1]>>8) != enc[2] || byte(ws[1]) != enc[3] {
+			r.Violation("AndX.GetParameters:words", fmt.Sprintf("%s: the parameter words %04x disagree with the block's own encoding % x", desc, ws, enc), map[string]any{"value": desc})
+		}
+		r.Eval(1)
 	}
 	r.Count("exhaustive_AndX_offsets", 65536)
 }
@@ -604,6 +611,44 @@ func runParameters() {
 		}
 		sp.judge([]fv{fu("WordCount", uint64(len(ws))), {"Words", wordsHex(ws)}}, enc, len(ws) > 0, desc)
 		sample(sp, desc, enc)
+		// the same block built through the block's own constructors encodes to the same bytes:
+		// word by word, from the byte stream of the words, and from that stream in two pieces
+		// (the first of odd length when possible: the odd byte is the high half of a word)
+		stream := enc[1:]
+		for mode := 0; mode < 3; mode++ {
+			q := parameters.NewParameters()
+			switch mode {
+			case 0:
+				for _, w := range ws {
+					q.AddWord(w)
+				}
+			case 1:
+				q.AddWordsFromBytesStream(append([]byte(nil), stream...))
+			default:
+				if len(stream) < 4 {
+					continue
+				}
+				q.AddWordsFromBytesStream(append([]byte(nil), stream[:2]...))
+				q.AddWordsFromBytesStream(append([]byte(nil), stream[2:]...))
+			}
+			got, err := q.Marshal()
+			r.Eval(1)
+			if err != nil || string(got) != string(enc) {
+				r.Violation("Parameters:constructors", fmt.Sprintf("%s: built with constructor %d the block encodes as %d bytes (err %v), the same words assigned directly give %d bytes", desc, mode, len(got), err, len(enc)), map[string]any{"value": desc, "constructor": mode})
+			}
+		}
+		// an odd-length stream: the last byte is the high half of one more word
+		if len(stream) >= 2 {
+			odd := append(append([]byte(nil), stream...), byte(len(ws)*37+1))
+			q := parameters.NewParameters()
+			q.AddWordsFromBytesStream(odd)
+			got, err := q.Marshal()
+			r.Eval(1)
+			wantOdd := append(append([]byte{byte(len(ws) + 1)}, odd...), 0)
+			if len(ws) < 255 && (err != nil || string(got) != string(wantOdd)) {
+				r.Violation("Parameters:constructors:odd-stream", fmt.Sprintf("%s: a stream of %d bytes gives a block of %d bytes (err %v); expected the stream followed by one zero byte under count %d", desc, len(odd), len(got), err, len(ws)+1), map[string]any{"value": desc})
+			}
+		}
 	}
 	for n := 0; n <= 255; n++ { // every word count
 		mk := func(f func(i int) uint16) []uint16 {
